@@ -256,7 +256,9 @@ def creepLoop (rec : Rec) : Nat → List Pat → List Val → Out × List Pat ×
       | o => (o, (stepKid rec kids 0).2, rest)
 
 /-- `random.uniform(0, 1) < prob` where it does not depend on the draw `u ∈ [0, 1)`: true for `prob ≥ 1`,
-    false for `prob ≤ 0`; in between the class is stochastic on the GLOBAL generator and outside the model. -/
+    false for `prob ≤ 0`; in between the outcome depends on the draw (the pattern's own generator since fix 4b64835,
+    the global one before), which this model has no tape for: outside the model, decided on the real objects by
+    `harness/props/c11.py` (`seeded_outside_chance_cases`). -/
 def creepRepeat (pr : Val) : Out :=
   match numCmp .ge pr (Val.int 1), numCmp .le pr (Val.int 0) with
   | some true, _ => .val (Val.bool true)
